@@ -163,4 +163,4 @@ ORACLES = {k: oracle for k in KINDS}
 
 
 def run(ctx):
-    drive(ctx, [Clause('C06/pairs', case_strategy, oracle, quick=1600, thorough=30000, quick_shards=8)])
+    drive(ctx, [Clause('C06/pairs', case_strategy, oracle, quick=1600, thorough=150000, quick_shards=8)])
